@@ -400,8 +400,12 @@ def ob_pipeline(cx):
         return
     b = builders[0]
     sel_seen = [e[1] for e in log if e[0] == "selection"]
-    want_sel = None if sel is None else sorted(s for s in sel if not any(s != o and inside(s, o) for o in sel))
-    cx.require(sel_seen == [want_sel], "the tree was asked for changes of %r, the caller selected %r" % (sel_seen, sel))
+    cx.require(len(sel_seen) == 1, "the tree was asked for its changes %d times" % len(sel_seen))
+    # the selection handed to the tree must MEAN what the caller's selection means (order and redundancy are free)
+    for p in PENDING + ["b", "a/b/c", "ab"]:
+        by_caller = sel is None or any(inside(p, s) for s in sel)
+        by_commit = sel_seen[0] is None or any(inside(p, s) for s in sel_seen[0])
+        cx.require(by_caller == by_commit, "the tree was asked for changes of %r, the caller selected %r" % (sel_seen[0], sel))
     cx.require(b.recorded == expected, "the builder recorded %r, selected and not excluded are %r" % (b.recorded, expected))
     cx.require(b.aborted == 0, "a successful commit aborted its write group")
     order = [n for n in names if n in ("builder.record_iter_changes", "builder.finish_inventory", "builder.commit",
